@@ -1173,8 +1173,255 @@ def run_ed(E):
 
 
 def run_fp2_packed(E, name, F2):
-    pass
+    """compressed form of norm-1 elements of Fp2: a0 || sign byte (n + 1 bytes)"""
+    ctx, R, rng = E.ctx, E.R, E.rng
+    p, n, beta = F2.p, F2.nb, F2.beta
+    mont = R.mont
+    top = (1 << (8 * n)) - 1
+    x = R.fpx_new(2)
+    y = R.fpx_new(2)
+    lab = "packed:u^2=%d" % (beta if beta < p // 2 else beta - p)
+
+    def bit(a1):
+        return (a1 * mont % p) & 1
+
+    def decode(bs):
+        if len(bs) != n + 1:
+            return None
+        a0 = int.from_bytes(bs[:n], "big")
+        if a0 >= p or bs[n] not in (0, 1):
+            return None
+        a1 = sqrt_mod((a0 * a0 - 1) * pow(beta, -1, p) % p, p)      # a0^2 - beta a1^2 = 1
+        if a1 is None:
+            return None
+        if bit(a1) != bs[n]:
+            a1 = -a1 % p
+        return [a0, a1] if bit(a1) == bs[n] else None
+
+    def rd(cls, bs):
+        def body(k):
+            R.fp_put_raw(x, top)
+            R.fp_put_raw(x + R.fp_sz, top)
+            pb = E.put(bs)
+            r = R.call("fp2_read_bin", x, pb, len(bs))
+            m = decode(bs)
+            if m is None:
+                ctx.check(r.caught, k + "|accepted", {"decoded": repr(R.fpx_get(x, 2))})
+                return
+            if not ctx.check(not r.caught, k + "|rejected", {"err": r.err}):
+                return
+            got, canon = R.fpx_get(x, 2)
+            ctx.check(got == m, k + "|decoded-value", {"got": [hx(g) for g in got], "exp": [hx(g) for g in m]})
+            ctx.check(canon, k + "|decoded-not-reduced")
+            out = E.mem(n + 1)
+            w = R.call("fp2_write_bin", out, n + 1, x, 1)
+            ctx.check(not w.caught and R.get(out, n + 1) == bs, k + "|reencode", {"caught": w.caught, "got": R.get(out, n + 1).hex()})
+        E.case("fp2_read_bin|%s|%s" % (lab, cls), {"bytes": bs.hex(), "set": name}, body)
+
+    def wr(cls, el, unit):
+        def body(k):
+            R.fpx_put(x, list(el))
+            exp = {0: F2.enc(el), 1: (el[0].to_bytes(n, "big") + bytes([bit(el[1])])) if unit else F2.enc(el)}
+            for pack in (0, 1):
+                kk = k + ("|pack" if pack else "|full")
+                e = exp[pack]
+                r = R.call("fp2_size_bin", x, pack)
+                ctx.check(not r.caught and r.i == len(e), kk + "|size_bin", {"got": r.i, "exp": len(e)})
+                out = E.mem(len(e))
+                w = R.call("fp2_write_bin", out, len(e), x, pack)
+                if ctx.check(not w.caught, kk + "|unexpected-error", {"err": w.err}):
+                    ctx.check(R.get(out, len(e)) == e, kk + "|value", {"got": R.get(out, len(e)).hex(), "exp": e.hex()})
+                    rr = R.call("fp2_read_bin", y, out, len(e))
+                    ctx.check(not rr.caught and R.fpx_get(y, 2) == (list(el), True), kk + "|roundtrip",
+                              {"caught": rr.caught, "got": repr(R.fpx_get(y, 2))})
+                o2 = E.mem(len(e) - 1)
+                w = R.call("fp2_write_bin", o2, len(e) - 1, x, pack)
+                ctx.check(w.caught, kk + "|short-buffer-accepted", {"len": len(e) - 1})
+        E.case("fp2_write_bin|%s|%s" % (lab, cls), {"el": [hx(c) for c in el], "set": name}, body)
+
+    units = []
+    for _ in range(6 if ctx.quick else 30):
+        w = (rng.randrange(1, p), rng.randrange(1, p))
+        units.append(F2.mul(w, F2.inv((w[0], -w[1] % p))))
+    units += [(1, 0), (p - 1, 0)]
+    a1 = sqrt_mod(-pow(beta, -1, p) % p, p)
+    if a1 is not None:
+        units += [(0, a1), (0, p - a1)]
+    for i, u in enumerate(units):
+        assert (u[0] * u[0] - beta * u[1] * u[1]) % p == 1
+        cls = "norm1" if i < len(units) - 4 else ("a1=0" if u[1] == 0 else "a0=0")
+        if E.mine():
+            wr(cls, u, True)
+        enc = u[0].to_bytes(n, "big") + bytes([bit(u[1])])
+        if E.mine():
+            rd("valid|" + cls, enc)
+        if E.mine():
+            rd("sign-flipped|" + cls, enc[:n] + bytes([enc[n] ^ 1]))
+        if i < 2 or cls != "norm1":
+            for b in range(2, 256):
+                if E.mine():
+                    rd("sign-byte>1", enc[:n] + bytes([b]))
+    for _ in range(4 if ctx.quick else 20):
+        if E.mine():
+            wr("not-norm1", (rng.randrange(p), rng.randrange(p)), False)
+    for v, c in fp_boundary(p, n):
+        for b in (0, 1):
+            if E.mine():
+                rd("a0=" + c, v.to_bytes(n, "big") + bytes([b]))
+    found = 0
+    while found < (8 if ctx.quick else 60):
+        a0 = rng.randrange(p)
+        has = sqrt_mod((a0 * a0 - 1) * pow(beta, -1, p) % p, p) is not None
+        if has and rng.random() < 0.7:
+            continue
+        found += 1
+        for b in (0, 1):
+            if E.mine():
+                rd("a0-random|" + ("root" if has else "no-root"), a0.to_bytes(n, "big") + bytes([b]))
+    R.free(x)
+    R.free(y)
 
 
 def run_fp12_gt(E, name, F2):
-    pass
+    """fp12 / gt: unpacked (12 coefficients) and cyclotomic-compressed (g2, g3, g4, g5 = 8 coefficients) forms"""
+    from ..model.tower import Ext, PrimeField
+    ctx, R, rng = E.ctx, E.R, E.rng
+    p, n = F2.p, F2.nb
+    top = (1 << (8 * n)) - 1
+    Fp_ = PrimeField(p)
+    T2 = Ext(Fp_, 2, F2.beta)
+    # measure xi = v^3 in Fp6 = Fp2[v]
+    v = R.fpx_new(6, [0, 0, 1, 0, 0, 0])
+    c = R.fpx_new(6)
+    R.call("fp6_sqr", c, v)
+    R.call("fp6_mul", c, c, v)
+    cube = R.fpx_get(c, 6)[0]
+    R.free(v)
+    R.free(c)
+    if cube[2:] != [0, 0, 0, 0]:
+        ctx.fail("fp12|%s|tower-not-binomial" % name, {"v^3": [hx(t) for t in cube]})
+        return
+    xi = (cube[0], cube[1])
+    T6 = Ext(T2, 3, xi)
+    T12 = Ext(T6, 2, T6.gen())
+    E.notes.setdefault("tower", {})[name] = {"u^2": hx(F2.beta), "v^3": [hx(xi[0]), hx(xi[1])]}
+    phi12 = p ** 4 - p ** 2 + 1
+    PACK_IDX = [1, 2, 3, 5]          # fp2 slots a[0][1], a[0][2], a[1][0], a[1][2] of the flattened element
+
+    def is_cyc(flat):
+        return T12.eq(T12.pow(T12.unflatten(flat), phi12), T12.one)
+
+    def enc_full(flat):
+        return b"".join(t.to_bytes(n, "big") for t in flat)
+
+    def enc_pack(flat):
+        return b"".join(flat[2 * i].to_bytes(n, "big") + flat[2 * i + 1].to_bytes(n, "big") for i in PACK_IDX)
+
+    x = R.fpx_new(12)
+    y = R.fpx_new(12)
+    # cyclotomic elements produced by the library (workload only), membership confirmed by the model
+    cyc = []
+    R.call("gt_get_gen", x)
+    cyc.append(R.fpx_get(x, 12)[0])
+    for _ in range(2 if ctx.quick else 8):
+        R.fpx_put(y, [rng.randrange(p) for _ in range(12)])
+        R.call("fp12_conv_cyc", x, y)
+        cyc.append(R.fpx_get(x, 12)[0])
+    good = []
+    for fl in cyc:
+        if is_cyc(fl) and fl != [1] + [0] * 11:
+            good.append(fl)
+        else:
+            ctx.fail("fp12|%s|workload-element-not-cyclotomic" % name, {"el": [hx(t) for t in fl[:4]]})
+    one = [1] + [0] * 11
+    noncyc = [[rng.randrange(p) for _ in range(12)] for _ in range(2 if ctx.quick else 8)]
+
+    for pre in ("fp12", "gt"):
+        def wr(cls, flat, cyclo, pre=pre):
+            def body(k):
+                R.fpx_put(x, flat)
+                snap = R.get(x, 12 * R.fp_sz)
+                for pack in (0, 1):
+                    kk = k + ("|pack" if pack else "|full")
+                    e = enc_pack(flat) if (pack and cyclo) else enc_full(flat)
+                    r = R.call(pre + "_size_bin", x, pack)
+                    ctx.check(not r.caught and r.i == len(e), kk + "|size_bin", {"got": r.i, "exp": len(e)})
+                    out = E.mem(len(e))
+                    w = R.call(pre + "_write_bin", out, len(e), x, pack)
+                    if ctx.check(not w.caught, kk + "|unexpected-error", {"err": w.err, "len": len(e)}):
+                        ctx.check(R.get(out, len(e)) == e, kk + "|value", {"got": R.get(out, len(e))[:96].hex()})
+                        for i in range(12):
+                            R.fp_put_raw(y + i * R.fp_sz, top)
+                        rr = R.call(pre + "_read_bin", y, out, len(e))
+                        if ctx.check(not rr.caught, kk + "|roundtrip-rejected", {"err": rr.err}):
+                            ctx.check(R.fpx_get(y, 12) == (flat, True), kk + "|roundtrip", {"got": [hx(t) for t in R.fpx_get(y, 12)[0][:4]]})
+                    o2 = E.mem(len(e) - 1)
+                    w = R.call(pre + "_write_bin", o2, len(e) - 1, x, pack)
+                    ctx.check(w.caught, kk + "|short-buffer-accepted", {"len": len(e) - 1})
+                    ctx.check(R.get(x, 12 * R.fp_sz) == snap, kk + "|input-modified")
+            E.case("%s_write_bin|%s" % (pre, cls), {"el": [hx(t) for t in flat[:4]], "set": name}, body)
+
+        for fl in good:
+            if E.mine():
+                wr("cyclotomic", fl, True)
+        if E.mine():
+            wr("unity", one, True)
+        for fl in noncyc:
+            if E.mine():
+                wr("non-cyclotomic", fl, False)
+
+        def rd(cls, bs, expect, pre=pre):
+            """expect: flat list (must decode to it), 'reject', or 'may' (no demand on acceptance)"""
+            def body(k):
+                for i in range(12):
+                    R.fp_put_raw(x + i * R.fp_sz, top)
+                pb = E.put(bs)
+                r = R.call(pre + "_read_bin", x, pb, len(bs))
+                if expect == "reject":
+                    ctx.check(r.caught, k + "|accepted", {"len": len(bs)})
+                    return
+                if r.caught:
+                    ctx.check(expect == "may", k + "|rejected", {"err": r.err})
+                    return
+                got, canon = R.fpx_get(x, 12)
+                ctx.check(canon, k + "|decoded-not-reduced")
+                if expect != "may":
+                    ctx.check(got == expect, k + "|decoded-value", {"got": [hx(t) for t in got[:4]]})
+                if len(bs) == 8 * n:
+                    ctx.check(enc_pack(got) == bs, k + "|kept-coefficients")
+                out = E.mem(len(bs))
+                w = R.call(pre + "_write_bin", out, len(bs), x, 1 if len(bs) == 8 * n else 0)
+                ctx.check(not w.caught and R.get(out, len(bs)) == bs, k + "|reencode", {"caught": w.caught})
+            E.case("%s_read_bin|%s" % (pre, cls), {"bytes": bs[:96].hex(), "len": len(bs), "set": name}, body)
+
+        for fl in good:
+            if E.mine():
+                rd("packed|valid", enc_pack(fl), fl)
+            if E.mine():
+                rd("full|valid", enc_full(fl), fl)
+            for pos in range(8):
+                for val, c in ((p, "coef=p"), (p + 1, "coef=p+1"), (top, "coef=all-ones"), (p - 1, "coef=p-1")):
+                    if val > top or not E.mine():
+                        continue
+                    w = bytearray(enc_pack(fl))
+                    w[pos * n:(pos + 1) * n] = val.to_bytes(n, "big")
+                    rd("packed|" + c, bytes(w), "may" if val < p else "reject")
+        if E.mine():
+            rd("packed|unity", bytes(8 * n), one)
+        if E.mine():
+            rd("full|unity", enc_full(one), one)
+        for _ in range(3 if ctx.quick else 20):
+            if E.mine():
+                rd("packed|random-reduced", b"".join(rng.randrange(p).to_bytes(n, "big") for _ in range(8)), "may")
+            if E.mine():                  # g2 = g3 = 0, g4, g5 arbitrary: decompression divides by zero
+                rd("packed|g2=g3=0", bytes(2 * n) + b"".join(rng.randrange(p).to_bytes(n, "big") for _ in range(2)) + bytes(2 * n) +
+                   b"".join(rng.randrange(p).to_bytes(n, "big") for _ in range(2)), "may")
+            if E.mine():
+                rd("full|non-cyclotomic", enc_full(noncyc[0]), noncyc[0])
+        for ln in sorted(set([0, 1, n, 4 * n, 8 * n - 1, 8 * n + 1, 8 * n - n, 8 * n + n, 12 * n - 1, 12 * n + 1, 12 * n + n, 16 * n, 24 * n])):
+            if ln in (8 * n, 12 * n):
+                continue
+            if E.mine():
+                rd("len", (enc_full(good[0] if good else one) * 3)[:ln], "reject")
+    R.free(x)
+    R.free(y)
